@@ -12,7 +12,8 @@ type case = {
   mutable generics : string list;
   mutable passes : int list list option;
   mutable relex : (int * int * string) list;
-  mutable kpasses : (string * int list list) list;  (* per pass: event letters, lines (reverse order of passes) *)
+  mutable kpasses : (string * int list list) list;
+  mutable wevents : string list list;  (* reversed: WD / WPHASE lines, split *)  (* per pass: event letters, lines (reverse order of passes) *)
   mutable lines : (string * line list) list;
   mutable states : (string * tokstate array) list;
   mutable out : string option;
@@ -23,7 +24,7 @@ type case = {
   mutable badutf8 : bool;
   mutable complete : bool;
 }
-let new_case id = { id; cfg = []; rs = ("", "", ""); input = ""; cursors = []; raw = []; parsed = []; generics = []; passes = None; relex = []; kpasses = [];
+let new_case id = { id; cfg = []; rs = ("", "", ""); input = ""; cursors = []; raw = []; parsed = []; generics = []; passes = None; relex = []; kpasses = []; wevents = [];
   lines = []; states = []; out = None; outcursors = []; panic = None; drift = false; cursordep = false; badutf8 = false; complete = false }
 let split s = String.split_on_char ' ' s |> List.filter (fun x -> x <> "")
 let ints s = if s = "-" then [] else List.map int_of_string (String.split_on_char ',' s)
@@ -66,6 +67,7 @@ let read_cases (ic : in_channel) (f : case -> unit) : unit =
               | "KPL", [t] -> (match c.kpasses with
                   | (ev, ls) :: r -> c.kpasses <- (ev, (if t = "-" then [] else List.map int_of_string (String.split_on_char ',' t)) :: ls) :: r
                   | [] -> ())
+              | ("WD" | "WPHASE"), l -> c.wevents <- (w :: l) :: c.wevents
               | "CFG", l -> c.cfg <- List.map int_of_string l
               | "RS", [a; b; d] -> c.rs <- (Util.unhex a, Util.unhex b, Util.unhex d)
               | "INPUT", [h] -> c.input <- Util.unhex h
